@@ -74,7 +74,7 @@ DRIVERS = [
     ('D6-warm-datetime-two-queries', ('d1', 'd4'), False, 'coarse', 1, 1),
     ('D7-warm-datetime-options', ('d3', 'd4'), False, 'coarse', 1, 1),
     ('D8-cold-datetime-and-number', ('d5', 'n5'), True, 'coarse', 1, 1),
-    ('D12-built-unused-datetime-two-dates', ('y1', 'y2'), 'built', 'calls', 1, 1),
+    ('D12-built-unused-datetime-two-dates', ('y1', 'y2'), 'built', 'calls', 0, 1),
     ('D13-warm-datetime-weekday-two-references', ('w1', 'w2'), False, 'coarse', 1, 1),
     ('D9-warm-number-two-preemptions', ('n3', 'n4'), False, 'methods', 2, 2),
     ('D10-warm-percentage-number-two-preemptions', ('p1', 'n2'), False, 'methods', 2, 2),
@@ -266,8 +266,9 @@ def body(ch):
         from vmc import state
         cid = ch.pick('call', [p[0] for p in POOL])
         ch.shard()
-        second = ch.pick('then', [None] + [p[0] for p in POOL if p[1] in ('number', 'percentage', 'ordinal', 'ip_address', 'boolean')
-                                            or p[0] in ('h1', 'h2', 'h3')])
+        cheap = [p[0] for p in POOL if p[1] in ('number', 'percentage', 'ordinal', 'ip_address', 'boolean')]
+        # construction-order dependence: models whose configuration tables are built from shared base tables (holidays)
+        second = ch.pick('then', [None] + cheap + (['h1', 'h2', 'h3'] if cid in ('h1', 'h2', 'h3', 'd5') else []))
         state.reset_cache()
         seq = [cid] + ([second] if second else [])
         for i, c in enumerate(seq):
@@ -301,9 +302,10 @@ def body(ch):
             gran = 'calls'          # every library call is a scheduling point (about 4,600 per date-time call)
         counts = counts_for(driver)
         plans = sched.plans_up_to(bound, counts)
-        if name.startswith('D12') and CFG['tier'] != 'thorough':
-            # quick tier: preemption positions within the first 1,200 scheduling points of each thread (first-use
-            # initialisation happens at the start of a first call); the thorough tier enumerates every position
+        if name.startswith('D12'):
+            # preemption positions within the first 1,200 scheduling points of each thread (first-use initialisation
+            # happens at the start of a first call); quick tier: only the two sequential orders - first-use writes are
+            # caught there by the write monitor
             plans = [pl for pl in plans if len(pl) < 3 or pl[0][1] <= 1200]
         chunk = 40
         ci = ch.pick_index('chunk', (len(plans) + chunk - 1) // chunk)
